@@ -86,6 +86,21 @@ def selftest(sc, seq_file, tier):
     return sorted(cases)
 
 
+def _kapacitor_panic(out):
+    """First 'panic:' / 'fatal error:' line of a Go crash report whose first goroutine stack runs kapacitor code."""
+    lines = out.splitlines()
+    for i, ln in enumerate(lines):
+        if ln.startswith("panic:") or ln.startswith("fatal error:"):
+            frames = [x for x in lines[i + 1:i + 40] if x and not x.startswith("\t") and "(" in x and not x.startswith("goroutine") and not x.startswith("[")]
+            for fr in frames[:6]:
+                if fr.startswith("kapverif/"):
+                    return ""
+                if fr.startswith("github.com/influxdata/kapacitor"):
+                    return ln.strip()[:200]
+            return ""
+    return ""
+
+
 def run(sc, tier, seed):
     R = V.Result("C02", tier, seed)
     V.build_harness()
@@ -102,7 +117,20 @@ def run(sc, tier, seed):
         if obs["violated"] != inv:
             raise V.Broken("%s no longer yields the %s counterexample: the invariant has become vacuous" % (cfg, inv))
     # B1/B3: systematic, random and concurrent histories on the real TaskMaster
-    out, meta = V.run_driver(sc, "c02", tier, seed, timeout=3000)
+    try:
+        out, meta = V.run_driver(sc, "c02", tier, seed, timeout=3000)
+    except V.Broken as e:
+        # The driver process itself died.  When the Go runtime reports a panic / fatal error whose goroutine is running
+        # kapacitor code (not harness code) - e.g. "send on closed channel" in the forking goroutine - that is the
+        # daemon dying under an ordinary history: every task loses its points.  Structural evidence (the runtime's own
+        # report), so a verdict; anything else stays a broken check.
+        msg = str(e)
+        died = _kapacitor_panic(msg)
+        if not died:
+            raise
+        d = V.save_replay("C02", "the process running the tasks died: " + died, [json.dumps({"ev": "Died", "panic": died})], [], None, extra=msg[-6000:])
+        R.violations.append(("the process running the tasks died under an ordinary history: " + died, d))
+        return R.finish("model_checking", ASSUME)
     R.add_meta(meta)
     stuck = meta.get("extra", {}).get("stuck_lifecycle_calls") or []
     for h in stuck:
